@@ -3,7 +3,9 @@
 Obligations: theorems of lean/OmplModel/Props/C03.lean (protocol machine over solve k | clear | clearQuery |
 setProblemDefinition | addStart | getPlannerData with an RRT-like tree core; kernel-checked, audited).
 
-(a) Lock-step for the modelled core (geometric::RRT): harness/proto.cpp runs the real planner in trace mode; every
+(a) Lock-step for the modelled cores (geometric::RRT; control::RRT with intermediate states - same scheme with
+    propagate/validity events; PRM's query bookkeeping - start/goal milestone counts of getPlannerData and
+    INVALID_START/INVALID_GOAL per solve over a fixed 33-op history).  Geometric RRT: harness/proto.cpp runs the real planner in trace mode; every
     iteration's oracle answers (nearest motion, motion valid?, new state, goal satisfied?, goal distance) are read off
     the trace and handed to the Lean driver `drv_plannerproto` as the draws of the same history; the model must then
     print the same status, solution count, flags, top-solution key, path (bit for bit), number of termination
@@ -59,6 +61,7 @@ AFTER_MEASURED = {
 }
 AFTER_DEFAULT = 8
 
+REPORT_LOCK = threading.Lock()     # worker threads: Check.report / build_harness are not thread-safe
 HIST_ENV = {"clearsol-sealed": "sealed"}
 CLEARSOL_KS = [0, 1, 2, 5]
 SEALED_K = 250
@@ -295,7 +298,14 @@ class Runner:
     def run(self, planner, seed, ops, trace=0, timeout=240, env="open"):
         script = [header(planner, seed, trace, env=env)] + ops
         for attempt in range(40):
-            out, rc, err = self.ck.run_bin(self.hbin, script, timeout=timeout)
+            try:
+                out, rc, err = self.ck.run_bin(self.hbin, script, timeout=timeout)
+            except FileNotFoundError:
+                # another run of this check rebuilt the harness for a newer /repo tree and removed our binary
+                with REPORT_LOCK:
+                    if not os.path.isfile(self.hbin):
+                        self.hbin = self.ck.build_harness("proto", ["proto.cpp"], link_ompl=True)
+                continue
             # the shared libompl cache may be mid-rebuild by another check (loader error, not a result): wait, retry
             if rc == 127 or (err and "error while loading shared libraries" in err):
                 time.sleep(3)
@@ -318,7 +328,7 @@ def probe_first_solution(rn, planner, seed):
 
 
 def judge_run(ck, rn, planner, seed, hname, k, K, ops, stats):
-    env = HIST_ENV.get(hname, "open")
+    env = HIST_ENV.get(hname, "sealed" if hname.startswith("corpus-sealed:") else "open")
     script, out, rc, err = rn.run(planner, seed, ops, env=env)
     if out is None:
         # a process timeout is reported as "never returns" only if a second run with a longer timeout agrees
@@ -623,7 +633,6 @@ def canon_model(lines):
 
 
 LOCK_CRASHES = {}
-REPORT_LOCK = threading.Lock()     # lockstep() runs in worker threads; Check.report is not thread-safe
 LOCKSTEP_CORE = {"RRT": ("rrt", "proto core=rrt"), "cRRTi": ("crrt", "proto core=crrt " + F(0.02))}
 
 
@@ -819,10 +828,11 @@ def run(ck):
     for name, lines in corpus():
         for ln in lines:
             head, _, body = ln.partition("|")
-            p, s = head.split()
+            hd = head.split()       # <planner> <seed> [sealed]
+            p, s = hd[0], hd[1]
             ops = [x.strip() for x in body.split(";") if x.strip()]
             ops = [expand_corpus_op(o) for o in ops]
-            jobs.append((p, int(s), "corpus:" + name, None, None, ops))
+            jobs.append((p, int(s), ("corpus-sealed:" if hd[2:] == ["sealed"] else "corpus:") + name, None, None, ops))
 
     # per planner: where does the first exact solution appear?
     seeds = {p: planner_seed(ck, p) for p in PLANNERS}
@@ -953,8 +963,12 @@ MANIFEST = {
             "clear() after replacing the problem definition; the code keeps the old tree otherwise - finding F47), "
             "monotone best solution, clear() = initial state, no duplicate starts, lastGoalMotion_ never dangling, balanced "
             "allocations - for every interruption index k and every history. "
-            "The model is tied to geometric::RRT by lock-step runs (per-iteration oracle answers taken from the real run's "
-            "trace). All other planners (40 geometric, 5 control) are exploration-backed only: enumerated k x histories "
+            "Second core: control::RRT with intermediate states (every propagated state adopted by a motion or freed exactly "
+            "once, alloc_balanced_control); third core: PRM's query bookkeeping (clearQuery_forgets_query_keeps_roadmap, "
+            "setProblemDefinition_rereads_query also for the pointer already held). "
+            "The models are tied to geometric::RRT, control::RRT(intermediate states) and PRM/PRMstar by lock-step runs "
+            "(per-iteration oracle answers taken from the real run's trace; milestone counts for PRM). All other planners "
+            "are exploration-backed only: enumerated k x histories "
             "run against the real code and judged by a spec oracle with ASan/LSan and an allocation-counting state space.",
     "note": "Level: proof for the protocol layer and the modelled RRT core; exploration-backed (no proof) for every other "
             "planner. Trusted: Lean kernel, standard axioms, the hand-written model outside what lock-step explored, the "
